@@ -1,4 +1,5 @@
 mod common;
+mod dictutil;
 mod c01;
 mod c02;
 mod c03;
